@@ -772,6 +772,75 @@ impl<'a> VisitMut for HofPass<'a> {
                 }
             }
         }
+        // R-HOF (slice sort): V.sort_by_key(|PAT| KEY)  ==>  V.hof_sort_by_key(Ghost(|__fjx_k| { let PAT = __fjx_k; KEY' }))
+        // and V.sort_by(|P1, P2| X.cmp(Y)) where Y is X with P2's names for P1's  ==>  the same with key X (a comparator that
+        // compares one projection of both elements IS sort_by_key of that projection). KEY' is KEY with `*n` read as `n`
+        // for the names the pattern binds (the exec closure sees `&T`, the ghost key function sees `T`).
+        if let Expr::MethodCall(sc) = e {
+            let mut key_parts: Option<(syn::Pat, Expr)> = None;
+            if sc.method == "sort_by_key" && sc.args.len() == 1 {
+                if let Expr::Closure(cl) = &sc.args[0] {
+                    if cl.inputs.len() == 1 {
+                        key_parts = Some((cl.inputs[0].clone(), (*cl.body).clone()));
+                    }
+                }
+            } else if sc.method == "sort_by" && sc.args.len() == 1 {
+                if let Expr::Closure(cl) = &sc.args[0] {
+                    if cl.inputs.len() == 2 {
+                        if let Expr::MethodCall(cmp) = &*cl.body {
+                            if cmp.method == "cmp" && cmp.args.len() == 1 {
+                                // rename P2's binders to P1's, position by position, and compare
+                                fn binders(p: &syn::Pat, out: &mut Vec<String>) {
+                                    match p {
+                                        syn::Pat::Ident(i) => out.push(i.ident.to_string()),
+                                        syn::Pat::Tuple(t) => t.elems.iter().for_each(|e| binders(e, out)),
+                                        syn::Pat::Reference(r) => binders(&r.pat, out),
+                                        syn::Pat::Wild(_) => out.push("_".into()),
+                                        _ => out.push("?".into()),
+                                    }
+                                }
+                                let (mut b1, mut b2) = (vec![], vec![]);
+                                binders(&cl.inputs[0], &mut b1);
+                                binders(&cl.inputs[1], &mut b2);
+                                let x = tok(&cmp.receiver);
+                                let mut y = tok(&cmp.args[0]);
+                                if b1.len() == b2.len() && !b1.contains(&"?".to_string()) {
+                                    for (n1, n2) in b1.iter().zip(b2.iter()) {
+                                        if n1 != "_" && n2 != "_" {
+                                            y = y.replace(n2.as_str(), n1.as_str());
+                                        }
+                                    }
+                                    let y = y.trim_start_matches('&').to_string();
+                                    if y == x.trim_start_matches('&') {
+                                        key_parts = Some((cl.inputs[0].clone(), (*cmp.receiver).clone()));
+                                    }
+                                }
+                            }
+                        }
+                    }
+                }
+            }
+            if let Some((pat, mut key)) = key_parts {
+                struct Deref0;
+                impl VisitMut for Deref0 {
+                    fn visit_expr_mut(&mut self, e: &mut Expr) {
+                        visit_mut::visit_expr_mut(self, e);
+                        if let Expr::Unary(u) = e {
+                            if matches!(u.op, syn::UnOp::Deref(_)) {
+                                if let Expr::Path(_) = &*u.expr {
+                                    *e = (*u.expr).clone();
+                                }
+                            }
+                        }
+                    }
+                }
+                Deref0.visit_expr_mut(&mut key);
+                let recv = &sc.receiver;
+                let new: Expr = parse_quote! { #recv.hof_sort_by_key(Ghost(|__fjx_k| { let #pat = __fjx_k; #key })) };
+                self.log.push(format!("R-HOF {}(closure) expressed as a stable sort by a ghost key function", sc.method));
+                *e = new;
+            }
+        }
         // R-RETAIN: M.retain(|k, v| B): every entry visited exactly once (dashmap: unspecified order; BTreeMap: key order)
         if let Expr::MethodCall(rt) = e {
             if rt.method == "retain" && rt.args.len() == 1 {
